@@ -22,9 +22,17 @@ lint() {
   python3 - <<'PY' || exit 2
 import re,sys,glob
 bad=0
+def strip_comments(text):
+    # nested (* ... *) comments replaced by blanks, newlines kept
+    out=[]; d=0; i=0; n=len(text)
+    while i<n:
+        if text.startswith('(*',i): d+=1; i+=2; out.append('  '); continue
+        if d>0 and text.startswith('*)',i): d-=1; i+=2; out.append('  '); continue
+        c=text[i]; out.append(c if (d==0 or c=='\n') else ' '); i+=1
+    return ''.join(out)
 for f in glob.glob('/verif/coq/theories/**/*.v',recursive=True):
     depth=0
-    for i,l in enumerate(open(f),1):
+    for i,l in enumerate(strip_comments(open(f).read()).split('\n'),1):
         s=l.strip()
         if re.match(r'Section\s+\w+\s*\.',s): depth+=1
         elif re.match(r'End\s+\w+\s*\.',s) and depth>0: depth-=1
